@@ -152,7 +152,8 @@ def run_all(obligs: list[Obligation], known: list[dict], jobs=None):
 def kf_match(k, oid):
     import fnmatch
 
-    return fnmatch.fnmatchcase(oid, k["obligation"])
+    pats = k["obligation"] if isinstance(k["obligation"], list) else [k["obligation"]]
+    return any(fnmatch.fnmatchcase(oid, p) for p in pats)
 
 
 def load_known(prop):
@@ -167,7 +168,7 @@ def _safe(s):
     return re.sub(r"[^A-Za-z0-9_.-]+", "_", s)[:150]
 
 
-def finish(prop, tier, obligs, results, known, *, t0, design_ref, trusted_base, assumptions, extra_cov=None, checker_cmd=None, seed=0):
+def finish(prop, tier, obligs, results, known, *, t0, design_ref, trusted_base, assumptions, extra_cov=None, checker_cmd=None, seed=0, level="proof", explanation=""):
     """print verdict lines, write evidence + replay files, return exit code"""
     by_ob: dict[int, list[dict]] = {}
     for i, d in results:
@@ -234,7 +235,11 @@ def finish(prop, tier, obligs, results, known, *, t0, design_ref, trusted_base, 
     for k in open_known:
         if id(k) not in matched_known:
             print(f"note: known finding {k['id']} no longer reproduces (obligation {k['obligation']} not refuted)")
-    os.makedirs(os.path.join(OUT, "replay", prop), exist_ok=True)
+    rdir = os.path.join(OUT, "replay", prop)
+    os.makedirs(rdir, exist_ok=True)
+    for fn in os.listdir(rdir):
+        if fn.endswith(".json"):
+            os.remove(os.path.join(rdir, fn))
     for ob, r in violations:
         path = os.path.join(OUT, "replay", prop, _safe(ob.oid) + ".json")
         rep = r.get("replay") or {}
@@ -281,13 +286,21 @@ def finish(prop, tier, obligs, results, known, *, t0, design_ref, trusted_base, 
         "design_ref": design_ref,
         "solver_stats": dict(core.STATS),
     }
+    n_bounded_ok = sum(1 for b in bounded if b["status"] in ("discharged", "discharged-known"))
+    total_paths = sum(d["paths"] for _, d in results)
+    if level != "proof":
+        cov["explanation"] = explanation
+        cov["evaluations"] = total_paths
+        cov["distinct_nontrivial"] = n_bounded_ok + n_disch
+        cov["rule"] = "one case = one obligation (verb step x abstract pre-state, or enumeration); evaluations = symbolic paths / enumerated tuples explored; all are distinct by construction"
+        cov["exhaustive"] = False
     if extra_cov:
         cov.update(extra_cov)
     ev = {
         "property_id": prop,
         "tier": tier,
         "seed": seed,
-        "level": "proof",
+        "level": level,
         "coverage": cov,
         "assumptions": assumptions,
         "wall_s": round(wall, 2),
@@ -300,6 +313,6 @@ def finish(prop, tier, obligs, results, known, *, t0, design_ref, trusted_base, 
         return 3
     if violations:
         return 1
-    if undecided or n_proof == 0:
+    if undecided or (n_proof == 0 and level == "proof") or (n_proof + len(bounded) == 0):
         return 2
     return 0
